@@ -367,6 +367,11 @@ def fix(name):
     return deco
 
 
+@fix("reproduce")
+def _fix_reproduce():
+    """No change at all: the pair is simply run again (is the divergence reproducible?)."""
+
+
 def brk(name):
     def deco(fn):
         BREAKS[name] = fn
